@@ -14,7 +14,7 @@ open WS.Gen
 theorem skeleton_matches_source : ConnCIR.skeleton = Skeleton.code := by decide
 
 /-- the CIR builder and the translator read the same committed ordered skeleton. -/
-theorem golden_in_sync : ConnCIR.orderedDeclared = Skeleton.declaredTokens := by decide
+theorem golden_in_sync : ConnCIR.orderedDeclared = Skeleton.declaredTokens := by decide +kernel
 
 /-- the sharper tie: for every function of the skeleton, the **language of primitive sequences along its paths**
 from entry to exit — primitives in order, through `if` / `else`, loops, `select`, `switch`, `defer` bodies, inlined
@@ -25,6 +25,6 @@ branches, `continue` or a shared tail, merged identical branches, a helper extra
 Moving a flag update across an unlock, swapping two lock acquisitions, arming a timeout before taking a lock,
 returning before a join or dropping a branch changes the language and breaks this obligation; code that does not
 synchronise can change freely. -/
-theorem ordered_matches_source : Skeleton.declared = Skeleton.ordered := by decide
+theorem ordered_matches_source : Skeleton.declared = Skeleton.ordered := by decide +kernel
 
 end WS.Props.CIRTie
